@@ -412,7 +412,7 @@ func TestC06(t *testing.T) {
 		Rule: "synthetic modules (1-3 packages, every declaration kind: defined struct/scalar/map/slice/func/interface types, aliases, generics, grouped " +
 			"declarations, function-local types and constants reusing package-level names, type parameters reusing package-level names) with tag lines " +
 			"gengo:<n>, =false, =true/x, :<sub>[=v], extended names, '@' marker at global / package-doc / declaration level, run with 1-3 recording " +
-			"generators whose names include prefix pairs (g/gen, deep/deepcopy, a/ab), with and without New / AliasGenerator / Defer; expected calls come " +
+			"generators whose names include prefix pairs (g/gen, deep/deepcopy, a/ab), with and without New / AliasGenerator / Defer (from GenerateType, from callbacks, from inside New), global keys with a value, without one, nil or empty; expected calls come " +
 			"from a reference enablement lattice over the harness's own spec; non-trivial = tag levels with different verdicts, or a local/shadowing " +
 			"declaration, or prefix-related generator names; distinct by JSON encoding of the case",
 		Assumptions: []string{
